@@ -3,6 +3,7 @@
 -/
 import UpdaterModel.Driver.Proto
 import UpdaterModel.Model.Monitor
+import UpdaterModel.Model.Monitor2
 
 namespace Updater.Judge
 open Updater Updater.Proto
@@ -21,6 +22,7 @@ def judgeAll (env : Env) (libs : List (String × Bytes)) (tr : List (Op × Obs))
   let vt := tr.map fun (op, o) => (op, viewOfObs o)
   [ ("C01", mon01.run env mon01.init 0 View.empty vt),
     ("C02", mon02.run env mon02.init 0 View.empty vt),
+    ("C02", mon02b.run env mon02b.init 0 View.empty vt),
     ("C03", mon03.run env mon03.init 0 View.empty vt),
     ("C05", (mon05 libs).run env (mon05 libs).init 0 View.empty vt),
     ("C06", mon06.run env mon06.init 0 View.empty vt),
